@@ -432,3 +432,57 @@ func zzFanIn(per, maxSwitches int) {
 		zz.Assert(na == 1 && nb == 1, "C16.fan-in/every-value-received-once")
 	}
 }
+
+// ZZ_C16_producer_outlives_run: a goroutine started by `go` runs concurrently
+// with its caller - also after the Execute / Run call that started it has
+// returned (the REPL, a host that starts producers in one call and consumes in
+// the next, a host reading a channel it handed to the script): every item is
+// still delivered, in order, and the channel is closed at the end.
+func ZZ_C16_producer_outlives_run() {
+	a, b, c := zz.Int64(), zz.Int64(), zz.Int64()
+	e := zzChanEnv(a, b, c)
+	capn := []string{"0", "1", "3"}[zz.Choose(3)]
+	zz.DeadlockIsViolation("terminates.C16.producer-outlives-run")
+	prod := []string{
+		"go func() { ch <- A; ch <- B; ch <- C; close(ch) }()",
+		"f = func(x, y, z) { ch <- x; ch <- y; ch <- z; close(ch) }; go f(A, B, C)",
+		"go func() { for v in [A, B, C] { ch <- v }; close(ch) }()",
+		"mid = make(chan int64); go func() { for v in mid { ch <- v }; close(ch) }(); go func() { mid <- A; mid <- B; mid <- C; close(mid) }()",
+	}
+	pi := zz.Choose(len(prod))
+	id := []string{"literal", "named-function", "loop", "relay"}[pi] + "/cap" + capn
+	consumer := zz.Choose(3)
+	if consumer == 2 {
+		// the host owns the channel and reads it after the call has returned
+		ch := make(chan int64, []int{0, 1, 3}[zz.Choose(3)])
+		e.Define("ch", ch)
+		_, err := Execute(e, nil, prod[pi])
+		zz.Assertf(err == nil, "C16.producer-outlives-run/start-run-succeeds/"+id, prod[pi])
+		var got []int64
+		for v := range ch {
+			got = append(got, v)
+		}
+		zz.Assertf(len(got) == 3 && got[0] == a && got[1] == b && got[2] == c, "C16.producer-outlives-run/host-receives-every-item-in-order/"+id, prod[pi])
+		return
+	}
+	_, err := Execute(e, nil, "ch = make(chan int64, "+capn+")\n"+prod[pi])
+	zz.Assertf(err == nil, "C16.producer-outlives-run/start-run-succeeds/"+id, prod[pi])
+	src := []string{"r = []; for v in ch { r += v }; r", "[<-ch, <-ch, <-ch, <-ch]"}[consumer]
+	r, err := Execute(e, nil, src)
+	zz.Assertf(err == nil, "C16.producer-outlives-run/consumer-run-succeeds/"+id, src)
+	if err != nil {
+		return
+	}
+	l, ok := r.([]interface{})
+	zz.Assertf(ok && len(l) >= 3, "C16.producer-outlives-run/later-run-receives-every-item/"+id, src)
+	if !ok || len(l) < 3 {
+		return
+	}
+	x, _ := l[0].(int64)
+	y, _ := l[1].(int64)
+	z, _ := l[2].(int64)
+	zz.Assertf(x == a && y == b && z == c, "C16.producer-outlives-run/later-run-receives-every-item/"+id, src)
+	if consumer == 1 {
+		zz.Assertf(len(l) == 4 && l[3] == nil, "C16.producer-outlives-run/channel-is-closed-at-the-end/"+id, src)
+	}
+}
